@@ -241,13 +241,18 @@ func c22CheckReencode(c *Ctx, doc []byte, class string) {
 }
 
 // c22InFragment: does a generated rules-valid stream lie in the fragment covered by the idempotence theorem
-// (CbeProofs.wf_body)? Excluded: times, custom text, big floats that are not exactly a float64,
+// (CbeProofs.wf_body)? Excluded: times, custom text (one event or chunked), big floats that are not exactly a float64,
 // big decimals with the exponent MinInt32.
 func c22InFragment(es []Ev) bool {
 	for _, e := range es {
 		switch e.K {
 		case "tm", "ct":
 			return false
+		case "cbeg":
+			// custom text through the chunked API is refused by the encoder (and by the model) like OnCustomText
+			if e.A == events.ArrayTypeCustomText {
+				return false
+			}
 		case "bf":
 			if e.BF != nil && !e.BF.IsInf() {
 				if _, acc := e.BF.Float64(); acc != big.Exact {
